@@ -32,7 +32,7 @@ EXC_PARENT = {
     'ArithmeticError': 'Exception', 'ZeroDivisionError': 'ArithmeticError',
     'OverflowError': 'ArithmeticError', 'LookupError': 'Exception',
     'IndexError': 'LookupError', 'KeyError': 'LookupError', 'TypeError': 'Exception',
-    'ValueError': 'Exception', 'AttributeError': 'Exception', 'AssertionError': 'Exception',
+    'ValueError': 'Exception', 'UnicodeDecodeError': 'ValueError', 'AttributeError': 'Exception', 'AssertionError': 'Exception',
     'RuntimeError': 'Exception', 'NotImplementedError': 'RuntimeError',
     'StructError': 'Exception', 'PacketError': 'Exception', 'ByteBoundaryError': 'Exception',
     'SyntaxError': 'Exception', 'ImportError': 'Exception', 'StopIteration': 'Exception',
